@@ -144,6 +144,20 @@ func runC09(a *args) error {
 				fault = []string{"break", "badid"}[r.intn(2)]
 				d.c.nodes[faulty].setStreamFault(fault)
 			}
+			// or a node that has left the cluster as far as the entry node knows (no address, no client): its partitions
+			// cannot be consulted, so the search must fail - never succeed without them
+			var gone uint64
+			if len(down) == 0 && faulty == 0 && !replicated && r.chance(1, 6) {
+				for _, pl := range d.placement {
+					if pl[0] != entry && (gone == 0 || r.chance(1, 2)) {
+						gone = pl[0]
+					}
+				}
+				if gone != 0 {
+					d.c.nodes[entry].datasets[d.id].VerifDropClients(gone)
+					d.c.nodes[entry].conn.RemoveNode(gone)
+				}
+			}
 			fc := fanCase{Kind: "search", K: k, Entry: entry, Down: down}
 			searchRec.mu.Lock()
 			searchRec.on, searchRec.msgs = true, nil
@@ -158,6 +172,16 @@ func runC09(a *args) error {
 			searchRec.mu.Unlock()
 			for _, n := range down {
 				d.c.nodes[n].setUnreachable(false)
+			}
+			if gone != 0 {
+				d.c.nodes[entry].conn.AddNode(gone, fmt.Sprintf("sim-%d", gone))
+				d.c.nodes[entry].datasets[d.id].VerifSetDataManagerClient(gone, &memDataManagerClient{to: d.c.nodes[gone]})
+				d.c.nodes[entry].datasets[d.id].VerifSetSearchClient(gone, &memSearchClient{to: d.c.nodes[gone]})
+				st.count(fmt.Sprintf("member-gone:err=%v", serr != nil))
+				if serr == nil {
+					st.ImplFailures = append(st.ImplFailures, implFailure{Case: len(cases), What: fmt.Sprintf("node %d hosts partitions of the dataset and has left the cluster as far as node %d knows; the search through node %d returned success with %d items instead of failing", gone, entry, entry, len(res)), Key: "success-without-departed-node", Input: fc})
+				}
+				continue
 			}
 			if faulty != 0 {
 				d.c.nodes[faulty].setStreamFault("")
